@@ -416,6 +416,28 @@ func genC01(e *emitter, tier string) {
 			{Op: "Flatten", Attrs: []Attr{{Name: "axis", Type: "i", I: 0}}, Ins: []string{"x"}, Outs: []string{"c"}},
 			{Op: "Flatten", Ins: []string{"x"}, Outs: []string{"d"}},
 		}, Outputs: []string{"a", "b", "c", "d"}}, []NamedT{{"x", smallT("f32", []int{2, 3}, 1)}}))
+	// one weight feeding two nodes of the same type with different attributes, either order
+	{
+		w := InitJ{Name: "w", T: tinyT("f32", []int{1, 1, 2, 2}, 3)}
+		x := NamedT{"x", smallT("f32", []int{1, 1, 5, 5}, 2)}
+		c1 := NodeJ{Op: "Conv", Ins: []string{"x", "w"}, Outs: []string{"y1"}}
+		c2 := NodeJ{Op: "Conv", Attrs: []Attr{{Name: "dilations", Type: "ints", Ints: []int64{2, 2}}}, Ins: []string{"x", "w"}, Outs: []string{"y2"}}
+		c3 := NodeJ{Op: "Conv", Attrs: []Attr{{Name: "dilations", Type: "ints", Ints: []int64{1, 2}}, {Name: "strides", Type: "ints", Ints: []int64{2, 1}}, {Name: "pads", Type: "ints", Ints: []int64{1, 0, 0, 1}}}, Ins: []string{"x", "w"}, Outs: []string{"y3"}}
+		for _, nodes := range [][]NodeJ{{c1, c2, c3}, {c3, c2, c1}, {c2, c1, c3}} {
+			e.emit(graphCase("shared-weight", &GraphJ{Inputs: []VInfoJ{{Name: "x", Dt: "f32", Dims: []any{1, 1, 5, 5}}}, Inits: []InitJ{w}, Nodes: nodes, Outputs: []string{"y1", "y2", "y3"}}, []NamedT{x}))
+		}
+		wm := InitJ{Name: "wm", T: smallT("f32", []int{3, 3}, 4)}
+		sh := InitJ{Name: "sh", T: idxT("i64", []int{2}, []int{0, -1})}
+		xm := NamedT{"xm", smallT("f32", []int{2, 3}, 5)}
+		g1 := NodeJ{Op: "Gemm", Ins: []string{"xm", "wm"}, Outs: []string{"g1"}}
+		g2 := NodeJ{Op: "Gemm", Attrs: []Attr{{Name: "transB", Type: "i", I: 1}, {Name: "alpha", Type: "f", F: 2}}, Ins: []string{"xm", "wm"}, Outs: []string{"g2"}}
+		g3 := NodeJ{Op: "Gemm", Attrs: []Attr{{Name: "transA", Type: "i", I: 1}}, Ins: []string{"wm", "wm", "wm"}, Outs: []string{"g3"}}
+		r1 := NodeJ{Op: "Reshape", Ins: []string{"xm", "sh"}, Outs: []string{"r1"}}
+		r2 := NodeJ{Op: "Reshape", Ins: []string{"wm", "sh"}, Outs: []string{"r2"}}
+		for _, nodes := range [][]NodeJ{{g1, g2, g3, r1, r2}, {r2, g3, g2, r1, g1}} {
+			e.emit(graphCase("shared-weight", &GraphJ{Inputs: []VInfoJ{{Name: "xm", Dt: "f32", Dims: []any{"N", 3}}}, Inits: []InitJ{wm, sh}, Nodes: nodes, Outputs: []string{"g1", "g2", "g3", "r1", "r2"}}, []NamedT{xm}))
+		}
+	}
 	// recurrent nodes of one type with explicit and with default activations in one graph, either order
 	// (defaults are transcendental: float carrier, compared up to rounding)
 	for _, op := range []string{"RNN", "GRU", "LSTM"} {
